@@ -497,7 +497,11 @@ def direct(case):
                 S = [scale * rnd.uniform(0.1, 10) for _ in range(12)]
                 names = ("JAN", "FEB", "MAR", "APR", "MAY", "JUN", "JUL", "AUG", "SEP", "OCT", "NOV", "DEC")
                 unt = rnd.choice([0, 1, rnd.random()])
-                c = dict(base, END_OF_MONTH_STOCKS=dict(zip(names, S)), RATIO_STOCKS_UNTOUCHED=unt, PERCENT_STORED_FOOD_TO_USE=100)
+                pairs = list(zip(names, S))
+                if rnd.random() < 0.5:
+                    # the stocks are a mapping month name -> value: whichever order the pairs arrive in (a sorted yaml or json dump, say)
+                    pairs = sorted(pairs) if rnd.random() < 0.5 else rnd.sample(pairs, 12)
+                c = dict(base, END_OF_MONTH_STOCKS=dict(pairs), RATIO_STOCKS_UNTOUCHED=unt, PERCENT_STORED_FOOD_TO_USE=100)
 
                 class OC:
                     OG_FRACTION_FAT = 0.01
